@@ -2,6 +2,7 @@ package vh
 
 import (
 	"fmt"
+	"sort"
 	"strings"
 )
 
@@ -1269,7 +1270,10 @@ func driveEncodeReuse(c *DriverCtx) error {
 					}
 					if f.Kind == "body" {
 						tab := S.Tables[f.Table]
-						v[f.Key] = tab.Entries[c.G.R.Intn(len(tab.Entries))].Key
+						// (the key depends on i/4 only: the sparse histories 4k+1 and 4k+3 of a type meet on one key,
+						// which matters when they are run by different goroutines)
+						c.G.R.Intn(len(tab.Entries))
+						v[f.Key] = tab.Entries[(i/4)%len(tab.Entries)].Key
 						v[f.Name] = nilObj
 					}
 				}
@@ -1341,6 +1345,198 @@ func driveLongLists(c *DriverCtx) error {
 func init() {
 	Drivers["encode-reuse"] = driveEncodeReuse
 	Drivers["long-lists"] = driveLongLists
+	Drivers["list-counts"] = driveListCounts
+}
+
+// Trim sides: ONE wire image read as fixed-width text with different pad sides (and pad bytes),
+// each reading in a history of its own - whatever a reading returns must depend on its own
+// (bytes, width, pad, side) only, also when another goroutine has just read the same bytes the
+// other way. Primitive level for arbitrary combinations, message level for the field pairs of
+// the pinned schema that share width and pad byte but differ in side.
+func driveTrimSides(c *DriverCtx) error {
+	r := c.G.R
+	image := func(n, pad int) []int {
+		for {
+			w := make([]int, n)
+			some := false
+			for i := range w {
+				switch r.Intn(3) {
+				case 0:
+					w[i] = pad
+				case 1:
+					w[i], some = 0x35, true
+				default:
+					w[i], some = 0x41+r.Intn(3), true
+				}
+			}
+			if some {
+				return w
+			}
+		}
+	}
+	ltrim := func(w []int, pad int) []int {
+		i := 0
+		for i < len(w) && w[i] == pad {
+			i++
+		}
+		return append([]int{}, w[i:]...)
+	}
+	rtrim := func(w []int, pad int) []int {
+		j := len(w)
+		for j > 0 && w[j-1] == pad {
+			j--
+		}
+		return append([]int{}, w[:j]...)
+	}
+	for rep := 0; rep < c.N*6; rep++ {
+		n := 1 + r.Intn(12)
+		pad := []int{0x20, 0x30, 0x00}[r.Intn(3)]
+		w := image(n, pad)
+		for _, cfg := range []struct {
+			pad  int
+			left bool
+		}{{pad, true}, {pad, false}, {0x2a, true}, {pad, false}, {pad, true}} {
+			a := map[string]any{"n": n, "pad": cfg.pad, "left": cfg.left}
+			if err := c.Run([]Op{{Op: "load", B: "b", Bytes: w}, {Op: "prim", B: "b", Fn: "ReadFixedStringTrimPadding", Args: a, Tag: "same-image-other-side"},
+				{Op: "load", B: "b2", Bytes: w}, {Op: "prim", B: "b2", Fn: "ReadFixedStringTrimPadding", Args: a}}); err != nil {
+				return err
+			}
+		}
+	}
+	// message level
+	type fld struct {
+		t, f string
+		list bool
+	}
+	groups := map[[2]int]map[bool][]fld{}
+	for _, tn := range TypeNames() {
+		for _, f := range S.Types[tn].Fields {
+			e, isList := &f, false
+			if f.Kind == "list" && f.Elem != nil && f.Elem.Kind == "fixed" {
+				e, isList = f.Elem, true
+			} else if f.Kind != "fixed" {
+				continue
+			}
+			k := [2]int{e.N, e.Pad}
+			if groups[k] == nil {
+				groups[k] = map[bool][]fld{}
+			}
+			groups[k][e.Left] = append(groups[k][e.Left], fld{tn, f.Name, isList})
+		}
+	}
+	keys := [][2]int{}
+	for k, g := range groups {
+		if len(g[true]) > 0 && len(g[false]) > 0 {
+			keys = append(keys, k)
+		}
+	}
+	sort.Slice(keys, func(i, j int) bool { return keys[i][0]*256+keys[i][1] < keys[j][0]*256+keys[j][1] })
+	for _, k := range keys {
+		g := groups[k]
+		for rep := 0; rep < c.N*4; rep++ {
+			w := image(k[0], k[1])
+			for _, left := range []bool{true, false, true, false} {
+				fl := g[left][r.Intn(len(g[left]))]
+				c.G.Small = true
+				v := c.G.Value(fl.t, Canon)
+				c.G.Small = false
+				var val []int
+				if left {
+					val = ltrim(w, k[1])
+				} else {
+					val = rtrim(w, k[1])
+				}
+				if fl.list {
+					v[fl.f] = []any{val, val}
+				} else {
+					v[fl.f] = val
+				}
+				if err := c.Run([]Op{{Op: "new", O: "m", V: v}, {Op: "encode", B: "b", O: "m", Tag: fmt.Sprintf("%s.%s same-image-other-side", fl.t, fl.f)},
+					{Op: "decode", B: "b", O: "r", T: fl.t, Fresh: true}}); err != nil {
+					return err
+				}
+			}
+		}
+	}
+	return nil
+}
+
+func init() { Drivers["trim-sides"] = driveTrimSides }
+
+// FencepostCounts: small counts densely, then the neighbourhoods of the multiples of 128 and
+// the round decimal numbers - where chunked loops, scratch buffers and fast paths have their edges.
+func FencepostCounts(thorough bool) []int {
+	counts := []int{}
+	for n := 0; n <= 40; n++ {
+		counts = append(counts, n)
+	}
+	for k := 1; k <= 16; k++ {
+		counts = append(counts, 128*k-1, 128*k, 128*k+1)
+	}
+	for k := 1; k <= 20; k++ {
+		if k%5 == 0 || thorough {
+			counts = append(counts, 100*k-1, 100*k, 100*k+1)
+		} else {
+			counts = append(counts, 100*k)
+		}
+	}
+	counts = append(counts, 4095, 4096)
+	if thorough {
+		counts = append(counts, 3000, 4097, 5000, 8191, 8192, 8193, 10000)
+	}
+	return counts
+}
+
+// Message-level sweep over list COUNTS: every list field of every type (31 in the pinned schema)
+// with every fencepost count of small elements; encoded into a fresh buffer and decoded back.
+func driveListCounts(c *DriverCtx) error {
+	thorough := c.N > 1
+	for _, tn := range c.types() {
+		td := S.Types[tn]
+		for _, f := range td.Fields {
+			if f.Kind != "list" && f.Kind != "objlist" {
+				continue
+			}
+			for k, n := range FencepostCounts(thorough) {
+				c.G.Small = true
+				v := c.G.Value(tn, Canon)
+				var el any
+				switch {
+				case f.Kind == "objlist":
+					el = c.G.Value(f.Type, Canon)
+				case f.Elem.Kind == "int":
+					b := make([]int, f.Elem.W)
+					for j := range b {
+						b[j] = 1 + j + k%7
+					}
+					el = b
+				case f.Elem.Kind == "fixed":
+					b := make([]int, f.Elem.N-k%2)
+					for j := range b {
+						b[j] = 0x61 + (j+k)%26
+					}
+					if len(b) > 0 && f.Elem.N == 1 {
+						b[0] = 0x41 + k%26
+					}
+					el = b
+				default: // prefixed text
+					el = []int{0x41 + k%26}
+				}
+				c.G.Small = false
+				lst := make([]any, n)
+				for j := range lst {
+					lst[j] = el
+				}
+				v[f.Name] = lst
+				ops := []Op{{Op: "new", O: "m", V: v}, {Op: "encode", B: "b", O: "m", Tag: fmt.Sprintf("%s.%s count=%d", tn, f.Name, n)},
+					{Op: "decode", B: "b", O: "r", T: tn, Fresh: true}, {Op: "peek", B: "b"}}
+				if err := c.Run(ops); err != nil {
+					return err
+				}
+			}
+		}
+	}
+	return nil
 }
 
 // Registry x frames: a checksummed frame encoded while its service is removed from the registry
